@@ -71,13 +71,21 @@ pub struct Straggler {
     pub duration: Vec<u64>,
     pub step: u64,
     pub frozen: Vec<(usize, u64)>,
+    /// slow-database mode: a worker that reports a database fetch (`db_*`) is frozen with
+    /// probability 1/`db_one_in` for a random number of steps up to `db_max`
+    pub db_one_in: u64,
+    pub db_max: u64,
 }
 impl Straggler {
+    pub fn slow_db(mut rng: Rng, one_in: u64, max: u64) -> Self {
+        let stay = rng.range(20, 85);
+        Straggler { inner: RandomWalk { rng, stay }, freeze_at: Vec::new(), duration: Vec::new(), step: 0, frozen: Vec::new(), db_one_in: one_in, db_max: max }
+    }
     pub fn new(mut rng: Rng, n: usize, horizon: u64) -> Self {
         let freeze_at = (0..n).map(|_| rng.below(horizon.max(1))).collect();
         let duration = (0..n).map(|_| 20 + rng.below(horizon.max(1))).collect();
         let stay = rng.range(20, 85);
-        Straggler { inner: RandomWalk { rng, stay }, freeze_at, duration, step: 0, frozen: Vec::new() }
+        Straggler { inner: RandomWalk { rng, stay }, freeze_at, duration, step: 0, frozen: Vec::new(), db_one_in: 0, db_max: 0 }
     }
 }
 impl Strategy for Straggler {
@@ -90,6 +98,14 @@ impl Strategy for Straggler {
                     if threads[c].role == "worker" {
                         self.frozen.push((c, step + self.duration[k]));
                     }
+                }
+            }
+        }
+        if self.db_one_in > 0 {
+            if let Some(ev) = last {
+                if ev.kind.starts_with("db_") && ev.tid >= 0 && threads[ev.tid as usize].role == "worker" && self.inner.rng.below(self.db_one_in) == 0 {
+                    let d = 10 + self.inner.rng.below(self.db_max.max(1));
+                    self.frozen.push((ev.tid as usize, step + d));
                 }
             }
         }
